@@ -1042,6 +1042,30 @@ def rule_r9(repo):
                     'difference at field %s: %r / %r; values %r / %r): a compiled template must not be used up by being run' % (
                         name, _outcome(r3), k, rd2.log[k:k + 1] if k is not None else None, rd3.log[k:k + 1] if k is not None else None,
                         st2.fields['decoded_values_all_subsets'][0][-4:], st3.fields['decoded_values_all_subsets'][0][-4:]), witness={'template': name})
+        # the compiled template written out as JSON and loaded back, then run: indistinguishable from the plain walk (the class of the
+        # A / S pseudo descriptors, which the JSON form does not carry, is the recorded finding C08.R4:json:pseudo-descriptor-class and
+        # is not compared again here)
+        rl, lstmts = P.save_and_load(repo, members)
+        rr.instance('save / load: %s' % name)
+        if lstmts is None:
+            rr.fail('concrete:%s:json-load' % name, fi.where, '%s: the compiled template written out as JSON cannot be loaded back (%s)' % (name, _outcome(rl)), witness={'template': name})
+        else:
+            st4, rd4 = P.plain_state(repo), P.ScriptReader(script)
+            r4 = P.replay(repo, lstmts, st4, rd4)
+            jk = lambda d: (d.fields.get('id'), d.fields.get('marker_id'), d.fields.get('nbits') if d.cls == 'MarkerDescriptor' else None) if isinstance(d, Obj) else repr(d)
+            if not r4.ok:
+                rr.fail('concrete:%s:json' % name, fi.where, '%s: the plain walk returns, the compiled template that went through JSON %s after %d fields' % (name, _outcome(r4), rd4.k),
+                        witness={'template': name})
+            else:
+                for what, a, b in (('fields read', rd1.log, rd4.log),
+                                   ('descriptors', [jk(d) for d in st1.fields['decoded_descriptors_all_subsets'][0]], [jk(d) for d in st4.fields['decoded_descriptors_all_subsets'][0]]),
+                                   ('values', st1.fields['decoded_values_all_subsets'][0], st4.fields['decoded_values_all_subsets'][0]),
+                                   ('links', sorted(st1.fields['bitmap_links_all_subsets'][0].items()), sorted(st4.fields['bitmap_links_all_subsets'][0].items()))):
+                    if a != b:
+                        k = _first_idx(a, b)
+                        rr.fail('concrete:%s:json' % name, fi.where, '%s: after a save / load through JSON the compiled template gives other %s than the plain walk (position %s: '
+                                '%r / %r)' % (name, what, k, a[k:k + 2] if k is not None else a, b[k:k + 2] if k is not None else b), witness={'template': name})
+                        break
         # encoder: the decoded values written back by the plain walk and by the compiled template
         vals = st1.fields['decoded_values_all_subsets'][0]
         e1, _, w1 = P.encode(repo, members, vals)
@@ -1097,7 +1121,7 @@ def rule_r9(repo):
                 name, st1.fields['decoded_values_all_subsets'], st1.fields['bitmap_links_all_subsets'], st2.fields['decoded_values_all_subsets'],
                 st2.fields['bitmap_links_all_subsets']), witness={'template': name})
     rr.extra = {'templates': len(family), 'failing_data_templates': n_err}
-    rr.require_floor(40)
+    rr.require_floor(90)
     return rr
 
 
